@@ -216,7 +216,7 @@ def gen_operands(rng: random.Random, opts: dict, kind: str):
 
 
 def check(run: Run, tier: str, seed: int):
-    n = 140 if tier == "quick" else 1500
+    n = 280 if tier == "quick" else 1500
     kinds = ["pair", "pair", "square", "chain", "evidence", "pair", "square"]
     for i in range(n):
         cls, opts, semirings = CLASSES[i % len(CLASSES)]
